@@ -261,6 +261,11 @@ def gen_case(rng, steer):
     # generator: the schedules of earlier seeds stay what they were)
     cfg['late_cb'] = 1 if random.Random(
         cfg['beh_seed'] ^ 0x5ca1ab1e).random() < 0.35 else 0
+    # senders already knocking while a start() that is going to fail sets up
+    # (and takes down again) the port that did start
+    if fault and fault['kind'] != 'http-port-bound' and random.Random(
+            cfg['beh_seed'] ^ 0xfa17).random() < 0.6:
+        waves[0]['early'] = True
     if hang_classes(cfg) and cfg['steer']['mode'] == 'site':
         # no 50-fold repetition of a 300 ms delay in runs that are judged
         # with the short watchdog
@@ -778,8 +783,11 @@ def judge(ctx, cfg, run, detail, partial=False):
                 V('response.unexpected-status',
                   'a valid ExportIndication was answered with %s' % outcome,
                   dict(detail, raw=short(r[1]['raw'], 600)))
+            # (a start() that raised has taken its servers down again:
+            # a connection they had accepted may end without an answer)
             if outcome == 'unanswered' and r[1]['connected'] and \
-                    w in stop_call and r[1]['t_recv'] is not None and \
+                    w in stop_call and w not in start_exc and \
+                    r[1]['t_recv'] is not None and \
                     r[1]['t_recv'] < stop_call[w][0]:
                 V('response.none-while-running',
                   'connection closed without any response before stop() '
